@@ -4,6 +4,7 @@ against the other checks named in ALT; writes seeded/<id>/meta.json and prints t
 import json, os, subprocess, sys, tempfile, shutil
 ROOT = os.path.dirname(os.path.dirname(os.path.abspath(__file__)))
 ALT = {'C04-a': ['C05'], 'C06-a': ['C09'], 'C06-b': ['C08'], 'C09-b': ['C13'], 'C03-a': ['C08'], 'C03-b': ['C01'], 'C15-b': ['C14'], 'C09-a': []}
+ALT.update({'C03-e': ['C06']})
 
 def run(patch, pid):
     d = tempfile.mkdtemp(prefix='vf-mut-', dir='/tmp')
